@@ -246,7 +246,6 @@ def scenarios(tier, seed):
              ("geo", {"ndata": 1, "part": "newton"})]
     thorough = [("cov", {"kind": "gauss_exp", "ndata": 2}),
                 ("ovi", {"nkeys": 2}),
-                ("ovi_pe", {"frozen": "a"}),
                 ("geo", {"ndata": 2, "part": "grad"}),
                 ("geo", {"ndata": 2, "part": "newton"})]
     return quick if tier == "quick" else quick + thorough
